@@ -511,3 +511,26 @@ for _name, _fns, _q, _t in (
     ("native-xcheck-pn", ["quic/packet.py::decode_packet_number"], 5000, 300000),
 ):
     BOUNDED[_name] = dict(functions=_fns, bound=_XC % (_q, _t), quick=_q, thorough=_t)
+
+
+# ---- C helpers (engine/native/cnative.py): built from the current C sources on every run
+def cbuffer_model(rng, limit):
+    from engine.native import cnative
+
+    try:
+        return cnative.cbuffer_model(rng, limit)
+    finally:
+        cnative.cleanup()
+
+
+def ccrypto_boundary(rng, limit):
+    from engine.native import cnative
+
+    try:
+        return cnative.ccrypto_boundary(rng, limit)
+    finally:
+        cnative.cleanup()
+
+
+BOUNDED["cbuffer-model"] = dict(functions=[], extra=["cbuffer_model"], bound="see result", quick=30000, thorough=400000)
+BOUNDED["ccrypto-boundary"] = dict(functions=[], extra=["ccrypto_boundary"], bound="see result", quick=1, thorough=1)
